@@ -582,6 +582,7 @@ pub struct NonsymBattery {
     pub hs_pd: Vec<Vec<f64>>,     // scaling matrix after update_scaling(s, z, mu, PrimalDual)
     pub unit_s: Vec<f64>,
     pub unit_z: Vec<f64>,
+    pub degree: usize,            // the barrier parameter the cone reports
 }
 
 pub fn nonsym_cone_battery(
@@ -605,6 +606,7 @@ pub fn nonsym_cone_battery(
     c.unit_initialization(&mut uz, &mut us);
     out.unit_z = uz;
     out.unit_s = us;
+    out.degree = c.degree();
     match &mut c {
         SupportedCone::ExponentialCone(k) => {
             out.primal_feasible = k.is_primal_feasible(s); out.dual_feasible = k.is_dual_feasible(z);
